@@ -5,6 +5,7 @@ import (
 	"errors"
 	"fmt"
 	"math"
+	"strings"
 	"sync"
 	"time"
 
@@ -144,7 +145,11 @@ func (w *world) latency(key, leg string) time.Duration {
 		x := lo * math.Pow(hi/lo, h.Float(key+leg+"v"))
 		return time.Duration(x * float64(time.Microsecond))
 	}
-	switch w.sc.Lat {
+	lat := w.sc.Lat
+	if w.updNarrow && strings.HasPrefix(key, "upd/") {
+		lat = "narrow"
+	}
+	switch lat {
 	case "quant":
 		return time.Duration(100*(1+h.Intn(key+leg+"q", 3))) * time.Microsecond
 	case "wide":
